@@ -56,11 +56,77 @@ theorem fill_ok (f need : Nat) (stream : List UInt8) (script : List ReadAns) (r 
                 conv => rhs; rw [this, List.take_add]
               · omega
         | eof => simp [fill] at h
-        | err => simp [fill] at h
+        | err e => simp [fill] at h
 
-/-- an end-of-file or error answer before the buffer is full makes the call fail -/
+/-- an end-of-file or an error answer — whatever its `errno` — when the buffer is not yet full makes the call fail -/
 theorem fill_fails_on_eof_or_err (f m : Nat) (stream : List UInt8) (as : List ReadAns) (r : Res) (a : ReadAns)
-    (ha : a = .eof ∨ a = .err) : (fill (f + 1) (m + 1) stream (a :: as) r).ok = false := by
-  rcases ha with rfl | rfl <;> simp [fill]
+    (ha : a = .eof ∨ ∃ e, a = .err e) : (fill (f + 1) (m + 1) stream (a :: as) r).ok = false := by
+  rcases ha with rfl | ⟨e, rfl⟩ <;> simp [fill]
+
+/-- … at **every position**: after any sequence of short reads that together cannot have filled the buffer
+    (`Σ (kᵢ+1) < need`; read `i` hands over at most `kᵢ+1` bytes) -/
+theorem fill_fails_at (ks : List Nat) (a : ReadAns) (ha : a = .eof ∨ ∃ e, a = .err e)
+    (f need : Nat) (stream : List UInt8) (as : List ReadAns) (r : Res)
+    (hf : need < f) (hs : (ks.map (· + 1)).sum < need) :
+    (fill f need stream (ks.map .chunk ++ a :: as) r).ok = false := by
+  induction ks generalizing f need stream r with
+  | nil =>
+    obtain ⟨f, rfl⟩ : ∃ f', f = f' + 1 := ⟨f - 1, by omega⟩
+    obtain ⟨m, rfl⟩ : ∃ m, need = m + 1 := ⟨need - 1, by simp at hs; omega⟩
+    exact fill_fails_on_eof_or_err f m stream as r a ha
+  | cons k ks ih =>
+    simp only [List.map_cons, List.sum_cons] at hs
+    obtain ⟨f, rfl⟩ : ∃ f', f = f' + 1 := ⟨f - 1, by omega⟩
+    obtain ⟨m, rfl⟩ : ∃ m, need = m + 1 := ⟨need - 1, by omega⟩
+    simp only [List.map_cons, List.cons_append, fill]
+    split
+    · rfl
+    · rename_i hn
+      have h1 : min (min (k + 1) (m + 1)) stream.length ≤ k + 1 :=
+        Nat.le_trans (Nat.min_le_left _ _) (Nat.min_le_left _ _)
+      generalize min (min (k + 1) (m + 1)) stream.length = n at *
+      exact ih _ _ _ _ (by omega) (by omega)
+
+/-- the converse reading: a call that succeeds saw only positive `read` results — no `-1`, no `0` — since it began -/
+theorem fill_ok_calls (f need : Nat) (stream : List UInt8) (script : List ReadAns) (r : Res)
+    (h : (fill f need stream script r).ok = true) :
+    ∀ c ∈ (fill f need stream script r).calls, c ∈ r.calls ∨ 0 < c.2 := by
+  induction f generalizing need stream script r with
+  | zero => simp [fill] at h
+  | succ f ih =>
+    cases need with
+    | zero => intro c hc; simp [fill] at hc; exact Or.inl hc
+    | succ m =>
+      cases script with
+      | nil =>
+        simp only [fill] at h ⊢
+        split at h
+        · simp at h
+        · rename_i hk
+          rw [if_neg hk]
+          intro c hc
+          rcases ih _ _ _ _ h c hc with h' | h'
+          · simp only [List.mem_cons] at h'
+            rcases h' with rfl | h'
+            · right; simp only; omega
+            · exact Or.inl h'
+          · exact Or.inr h'
+      | cons a as =>
+        cases a with
+        | chunk k =>
+          simp only [fill] at h ⊢
+          split at h
+          · simp at h
+          · rename_i hk
+            rw [if_neg hk]
+            intro c hc
+            rcases ih _ _ _ _ h c hc with h' | h'
+            · simp only [List.mem_cons] at h'
+              rcases h' with rfl | h'
+              · right; simp only; omega
+              · exact Or.inl h'
+            · exact Or.inr h'
+        | eof => simp [fill] at h
+        | err e => simp [fill] at h
 
 end Percival.Proofs.OsEntropy
